@@ -305,8 +305,12 @@ CLAIMED['C08'] = dict(
          'after the cycle), C08_blacklisted_unplaced (a blacklisted instance ends the cycle with no server and no '
          'identity); a server that is not up receives no new instance (C03_new_assignment). For every cell state: '
          'C08_retention_decision + C08_expired, C08_no_capacity_eviction_meanwhile / C08_nonup_receives_nothing, '
-         'C08_blacklisted_skipped. C08_shrink_refuted: machine-checked witness that an identity-group shrink removes an '
-         'instance from a down server inside its retention window (known finding; hence the valid-identity premise).'),
+         'C08_blacklisted_skipped. Master level: C08_master_since over the model Master/SrvState.v of the Loader\'s '
+         'server-state bookkeeping - the since against which retention is measured is the time a master first saw the '
+         'presence gone, through restarts, fail-overs and record reloads, and an up server never keeps a record saying '
+         'down - tied by its own correspondence stage on E-master histories, plus a retention oracle on the real Master. '
+         'C08_shrink_refuted / C08_renewal_refuted: machine-checked witnesses of the two exemptions the statement does not '
+         'list (identity-group shrink; failing lease renewal) - known findings, hence the premises of C08_keeps_placement.'),
     note=SCHED_NOTE + ' Hypotheses of the all-histories theorems (wf_ops_all): a new server or instance has a fresh name and vectors of '
          'the cell dimension, a new instance record is not placed and holds no identity, configured counts are '
          'non-negative.',
